@@ -112,6 +112,15 @@ func runC07(t *T) {
 					o.Q = viewPath(dir, o.Q)
 				}
 			}
+			if c.Chance(1, 8) {
+				// names that would reach outside the view if they were joined before being validated
+				esc := []string{"../" + k.alpha[0], "../../" + k.alpha[1], k.alpha[0] + "/../../" + k.alpha[1], "..", "/" + k.alpha[0]}[c.Draw(5)]
+				if o.Kind == "Rename" && c.Chance(1, 2) {
+					o.Q = esc
+				} else {
+					o.P = esc
+				}
+			}
 			if (o.Kind == "Remove" || o.Kind == "RemoveAll" || o.Kind == "Rename") && (o.P == "." || o.Q == ".") && t.Avoid("remove-root-of-sub-view") {
 				continue
 			}
